@@ -1505,6 +1505,14 @@ class FDE:
 
     def _call2(self, e, env, fi, eager):
         f = e.func
+        if isinstance(f, ast.Name) and fi is not None and f.id not in env and f.id not in fi.module.functions and f.id not in fi.module.classes:
+            imp_ = fi.module.imports.get(f.id)
+            if imp_ and ':' in imp_ and imp_.split(':')[1] != f.id and (imp_.startswith('.') or imp_.startswith('awesomeyaml')):
+                real_ = imp_.split(':')[1]
+                if real_ not in env and real_ not in fi.module.functions and real_ not in fi.module.classes and real_ not in fi.module.imports:
+                    # `from .mod import name as alias`: a call of the alias is a call of the name (stand-ins and classes are known by name)
+                    e = ast.copy_location(ast.Call(func=ast.copy_location(ast.Name(id=real_, ctx=ast.Load()), f), args=e.args, keywords=e.keywords), e)
+                    f = e.func
         args = []
         if isinstance(f, ast.Name) and f.id in ('any', 'all', 'next') and f.id not in env and e.args and isinstance(e.args[0], ast.GeneratorExp) \
                 and len(e.args[0].generators) == 1 and not e.keywords:
